@@ -213,6 +213,16 @@ impl<C: HColor> Iterator for IdxColors<C> {
         self.pulled.set(self.idx);
         Some(C::from_raw(v))
     }
+    fn size_hint(&self) -> (usize, Option<usize>) {
+        // exact for finite streams, as a slice or range iterator would report
+        match self.end {
+            Some(e) => {
+                let r = e.saturating_sub(self.idx) as usize;
+                (r, Some(r))
+            }
+            None => (usize::MAX, None),
+        }
+    }
     fn nth(&mut self, n: usize) -> Option<C> {
         // O(1) skip, as a slice or range iterator would provide
         let n = n as u64;
@@ -672,6 +682,7 @@ pub fn model_info(name: &str) -> (u16, u16, &'static str) {
             let (w, h) = parse_wh(&n[8..]);
             (w as u16, h as u16, "666")
         }
+        "tinybgr565_4x3" => (4, 3, "565"),
         _ => (0, 0, "none"),
     }
 }
@@ -704,6 +715,7 @@ fn build_display(c: &Cfg) -> Built {
             let (w, h) = parse_wh(&n[8..]);
             tiny666!(c, w, h, (2, 3), (3, 2), (40, 36))
         }
+        "tinybgr565_4x3" => both!(TinyBgr565::<4, 3>, c),
         o => panic!("HARNESS: unknown model {o}"),
     }
 }
@@ -874,7 +886,7 @@ pub fn run_scenario(sc: &Scenario, out: &mut dyn Write) {
     }
     let scn = json!({"kind":kind,
         "cfg":{"model":c.model,"W":fw,"H":fh,"w":c.w.unwrap_or(fw),"h":c.h.unwrap_or(fh),
-               "ox":c.ox.unwrap_or(0),"oy":c.oy.unwrap_or(0),"rot":c.rot,"mir":c.mir,"bgr":c.bgr,"inv":c.inv,
+               "ox":c.ox.unwrap_or(0),"oy":c.oy.unwrap_or(0),"rot":c.rot,"mir":c.mir,"bgr":c.bgr || c.model.starts_with("tinybgr"),"inv":c.inv,
                "refv":c.refv,"refh":c.refh,"rst":c.rst,"iface":c.iface.trim_end_matches("_ref"),"byref":c.iface.ends_with("_ref"),"buf":c.buf,
                "batch":cfg!(feature = "batch"),"profile": if cfg!(debug_assertions) {"dev"} else {"rel"},
                "colour":colour},
